@@ -127,7 +127,7 @@ def s_of(v):
 # ----------------------------------------------------------------------------- generator
 # how many Rust types the harness can carry a string in, per position (harness/ssr/src/c06.rs)
 N_ATTR_TYPES, N_CLASS_TYPES, N_STYLE_TYPES, N_PROP_TYPES, N_PROP_KEY_TYPES, N_TEXT_TYPES = 31, 29, 26, 21, 3, 27
-N_BOOL_TYPES, N_TOGGLE_TYPES = 2, 3
+N_BOOL_TYPES, N_TOGGLE_TYPES = 2, 8
 
 
 # ---- primitives (render_primitive! in view/primitives.rs and html/attribute/value.rs): (k n) -> Display
